@@ -1,6 +1,6 @@
 (* C06 - Unreal 2 replies decode strings and lists without loss or addition. *)
 From GD Require Import Base.Prelude Model.Strings Model.StrOps Model.Buffer Model.Unreal2Str Model.Net Model.Valve Model.Unreal2 Spec.Unreal2Spec.
-From GD Require Import Proofs.BufferLemmas Proofs.Msafe Proofs.Unreal2StrProofs Proofs.Unreal2Total.
+From GD Require Import Proofs.BufferLemmas Proofs.Msafe Proofs.Unreal2StrProofs Proofs.Unreal2Total Proofs.Unreal2Lists.
 
 (* latin1: for EVERY length byte below 0x80 and every content (text outside the
    control range, colour codes with any components but 1b, optional terminating
@@ -30,6 +30,37 @@ Theorem c06_clean : forall segs (nul : bool), forallb seg_ok segs = true ->
   u2_clean (raw_of segs ++ (if nul then [0] else [])) = text_of segs.
 Proof. exact u2_clean_segs. Qed.
 Print Assumptions c06_clean.
+(* ---- the lists ----
+   ws_ok: a wire string of either encoding within its length byte (Latin-1 below 0x80 bytes; UCS-2 below 0x80
+   units, not empty and not starting with the byte 01 - the marker quirk).
+   One datagram of mutators / rules: every key / value pair comes back, in order (a "mutator" key, in any case,
+   adds to the mutator set; any other key appends its value to that rule's values). One datagram of players:
+   every player comes back with every field, those with ping 0 as bots, each group in the order sent. *)
+Theorem c06_ws_ok_means : forall w,
+  ws_ok w <->
+  match ws_enc w with
+  | Latin1 => forallb seg_ok8 (ws_segs w) = true /\ lenN (raw_of (ws_segs w) ++ (if ws_nul w then [0] else [])) < 128
+  | Ucs2 =>
+      let raw := raw_of (ws_segs w) ++ (if ws_nul w then [0] else []) in
+      let units := flat_map utf16_units1 raw in
+      forallb seg_ok (ws_segs w) = true /\ forallb scalar_ok raw = true /\ lenN units < 128
+      /\ (match utf16le units with [] => False | 1 :: _ => False | _ => True end)
+  end.
+Proof. exact (fun w => conj (fun x => x) (fun x => x)). Qed.
+Print Assumptions c06_ws_ok_means.
+Theorem c06_rules_datagram : forall l acc, Forall (fun kv => ws_ok (fst kv) /\ ws_ok (snd kv)) l ->
+  with_headers 1 (enc_u2_pairs l) (parse_mr (S (length (enc_u2_pairs l))) acc) = Ok (expected_pairs l acc).
+Proof. exact rules_datagram_decodes. Qed.
+Print Assumptions c06_rules_datagram.
+Theorem c06_players_datagram : forall l acc,
+  Forall (fun p => let '(id, name, ping, score, sid) := p in
+                   id < 4294967296 /\ ws_ok name /\ ping < 4294967296 /\ (- 2147483648 <= score < 2147483648)%Z /\ sid < 4294967296) l ->
+  with_headers 2 (enc_u2_players l) (parse_u2_players (S (length (enc_u2_players l))) acc)
+  = Ok (mk_u2ps (ups_players acc ++ filter (fun p => negb (up_ping p =? 0)) (map expected_player l))
+                (ups_bots acc ++ filter (fun p => up_ping p =? 0) (map expected_player l))).
+Proof. exact players_datagram_decodes. Qed.
+Print Assumptions c06_players_datagram.
+
 (* the whole query, for every script: total; only the three 79 00 00 00 <kind>
    requests are sent; at most 50 player slots are reserved *)
 Theorem c06_u2_total : forall port g t u tc sf, settings_ok t -> safe (fst (u2_query port g t (net_init u tc sf))).
@@ -46,3 +77,14 @@ Example c06_ex_colour :
   let w := mk_ws Latin1 [Colour 1 1 1; Txt (str "Shadow")] true in
   forallb seg_ok8 (ws_segs w) = true /\ fst (dec_unreal2 (buf_new (enc_ustring w))) = Ok (str "Shadow").
 Proof. split; vm_compute; reflexivity. Qed.
+(* the hypotheses of the list theorems are met: a Latin-1 key with terminator, a UCS-2 value with a
+   non-ASCII text and a colour code, a player with a negative score, a bot *)
+Example c06_ex_lists :
+  let k := mk_ws Latin1 [Txt (str "Mutator")] true in
+  let v := mk_ws Ucs2 [Colour 200 26 0; Txt [233; 8364; 128512]] false in
+  (ws_ok k /\ ws_ok v)
+  /\ with_headers 1 (enc_u2_pairs [(k, v)]) (parse_mr (S (length (enc_u2_pairs [(k, v)]))) (mk_u2mr [] []))
+     = Ok (mk_u2mr [utf8_encode [233; 8364; 128512]] [])
+  /\ with_headers 2 (enc_u2_players [(7, v, 30, (-5)%Z, 9); (8, k, 0, 2%Z, 0)]) (parse_u2_players 200 (mk_u2ps [] []))
+     = Ok (mk_u2ps [mk_u2p 7 (utf8_encode [233; 8364; 128512]) 30 (-5) 9] [mk_u2p 8 (str "Mutator") 0 2 0]).
+Proof. split; [split; vm_compute; repeat split; discriminate|]. split; vm_compute; reflexivity. Qed.
